@@ -927,10 +927,103 @@ def analyse_trace_init():
     if st.get("wpsi") is None: raise TranslateError("dtw_best_path: wpsi not initialised")
     return st["wpsi"]
 
+def bool_expr(txt, where):
+    """a C condition over idx_t variables (||, &&, parentheses, >, <, ==, + and -) -> Coq bool; the two reads
+    dtw_wps_get(&p, wps, rs, l2) / dtw_wps_get(&p, wps, l1, cs) must have been replaced by VR / VC (costs)"""
+    toks = re.findall(r"\|\||&&|==|[()<>+\-]|[A-Za-z_]\w*|\d+", txt)
+    if "".join(toks) != re.sub(r"\s+", "", txt):
+        raise TranslateError("%s: cannot tokenise condition %r" % (where, txt))
+    pos = [0]
+
+    def peek():
+        return toks[pos[0]] if pos[0] < len(toks) else None
+
+    def eat(t=None):
+        x = peek()
+        if x is None or (t is not None and x != t):
+            raise TranslateError("%s: unexpected token %r in %r" % (where, x, txt))
+        pos[0] += 1
+        return x
+
+    def arith():
+        def term():
+            x = eat()
+            if not re.fullmatch(r"[A-Za-z_]\w*|\d+", x):
+                raise TranslateError("%s: operand %r in %r" % (where, x, txt))
+            return x
+        e = term()
+        while peek() in ("+", "-"):
+            o = eat()
+            e = "(%s %s %s)" % (e, o, term())
+        return e
+
+    def cmp_():
+        if peek() == "(":
+            eat("(")
+            e = or_()
+            eat(")")
+            return e
+        a = arith()
+        o = eat()
+        b = arith()
+        if {a, b} <= {"VR", "VC"}:
+            if o != "<":
+                raise TranslateError("%s: comparison %s of two cells" % (where, o))
+            return "(cltb %s %s)" % (a.lower(), b.lower())
+        if "VR" in (a, b) or "VC" in (a, b):
+            raise TranslateError("%s: a cell compared with an index in %r" % (where, txt))
+        return {"<": "(%s <? %s)" % (a, b), ">": "(%s <? %s)" % (b, a), "==": "(%s =? %s)" % (a, b)}[o]
+
+    def and_():
+        e = cmp_()
+        while peek() == "&&":
+            eat()
+            e = "(%s && %s)" % (e, cmp_())
+        return e
+
+    def or_():
+        e = and_()
+        while peek() == "||":
+            eat()
+            e = "(%s || %s)" % (e, and_())
+        return e
+    e = or_()
+    if peek() is not None:
+        raise TranslateError("%s: trailing tokens in %r" % (where, txt))
+    return e
+
+
+def analyse_trace_end():
+    """dtw_best_path: the choice of the start cell when the end is psi-relaxed (the chain of -1 marks)"""
+    txt = canon_c(strip_comments(open(os.path.join(REPO, "src/DTAIDistanceC/DTAIDistanceC/dd_dtw.c")).read()))
+    body = trace_func_body(txt, "dtw_best_path")
+    body = re.sub(r"\s+", "", body)
+    fn = "dtw_best_path"
+    for pat, what in ((r"if\(l1>0&&l2>0&&\(settings->psi_1e!=0\|\|settings->psi_2e!=0\)&&dtw_wps_get\(&p,wps,l1,l2\)==-1\)\{", "relaxed-end test"),
+                      (r"idx_trs=l1;while\(rs>0&&dtw_wps_get\(&p,wps,rs,l2\)==-1\)\{rs--;\}", "scan of the last column"),
+                      (r"idx_tcs=l2;while\(cs>0&&dtw_wps_get\(&p,wps,l1,cs\)==-1\)\{cs--;\}", "scan of the last row"),
+                      (r"if\(rs>0&&cs>0\)\{returndtw_best_path_customstart\(wps,i1,i2,l1,l2,rs,cs,settings\);\}", "call of the custom-start traceback")):
+        if len(re.findall(pat, body)) != 1:
+            raise TranslateError("%s: %s not found exactly once" % (fn, what))
+    m = re.findall(r"\}if\(([^{}]+)\)\{cs=l2;\}elseif\(([^{}]+)\)\{rs=l1;\}elseif\(([^{}]+)\)\{cs=l2;\}else\{rs=l1;\}if\(rs>0&&cs>0\)", body)
+    if len(m) != 1:
+        raise TranslateError("%s: the four-way choice of the start cell matched %d times (expected 1)" % (fn, len(m)))
+    conds = []
+    for c in m[0]:
+        c = c.replace("dtw_wps_get(&p,wps,rs,l2)", "VR").replace("dtw_wps_get(&p,wps,l1,cs)", "VC").replace("settings->", "")
+        if "dtw_wps_get" in c or "->" in c:
+            raise TranslateError("%s: unexpected read in the choice of the start cell: %s" % (fn, c))
+        conds.append(bool_expr(c, fn))
+    return ("(* dtw_best_path on a psi-relaxed end: rs / cs = the rows / columns left after the chains of -1 marks; vr, vc = the\n"
+            "   cells (rs, l2) and (l1, cs); the result is the start cell handed to dtw_best_path_customstart *)\n"
+            "Definition c_bestpath_end (l1 l2 rs cs psi_1e psi_2e : Z) (vr vc : cost) : Z * Z :=\n"
+            "  if %s then (rs, l2) else if %s then (l1, cs) else if %s then (rs, l2) else (l1, cs).\n" % tuple(conds))
+
+
 def emit_trace(res):
     lines=["(* GENERATED by tools/translate_c.py from src/DTAIDistanceC/DTAIDistanceC/dd_dtw.c -- do not edit *)",
            "(* the three loops (regions D, C, A-B) of the traceback routines over the compact warping-paths array *)",
-           "From Coq Require Import ZArith String List.","Import ListNotations.","Open Scope Z_scope.","",
+           "From Coq Require Import ZArith Bool String List.","From DV Require Import Cost.","Import ListNotations.","Open Scope Z_scope.","Open Scope bool_scope.","",
            "Inductive trace_region := TD | TC | TAB.","",
            "Record trace_loop := {","  tl_function : string; tl_region : trace_region;",
            "  tl_diag : Z; tl_left : Z; tl_up : Z;          (* read offsets relative to wpsi: previous row, current row, previous row *)",
@@ -944,6 +1037,8 @@ def emit_trace(res):
     lines.append("")
     lines.append("(* dtw_best_path: wpsi before the loops (rip = l1, cip = l2) *)")
     lines.append("Definition c_trace_init_wpsi (l2 window ldiff ldiffr ldiffc ri2 ri3 : Z) : Z := %s."%analyse_trace_init())
+    lines.append("")
+    lines.append(analyse_trace_end())
     return "\n".join(lines)+"\n"
 
 
